@@ -12,6 +12,7 @@ mod gen;
 mod props;
 mod refsearch;
 mod runner;
+mod script;
 mod src;
 mod stats;
 
@@ -59,6 +60,8 @@ pub fn panic_text(p: &Box<dyn std::any::Any + Send>) -> String {
 fn redirect_stdout() {
     unsafe {
         let saved = libc::dup(1);
+        // children (the engine processes of the black-box driver) must not inherit it
+        libc::fcntl(saved, libc::F_SETFD, libc::FD_CLOEXEC);
         let devnull = libc::open(b"/dev/null\0".as_ptr() as *const libc::c_char, libc::O_WRONLY);
         libc::dup2(devnull, 1);
         libc::close(devnull);
